@@ -1747,7 +1747,7 @@ func probeHooks(t *testing.T) bool {
 
 func body(t *testing.T, a vh.Args) {
 	res := vh.NewResult("C11", a.Seed, a.Tier)
-	res.Rule = "router: operation lists (launch ReceiveFrom / hand one message to the reader / cancel / release a held receiver / Close / delivery failure / garbage) run against pkg/network.Router over a checker-controlled Delivery inside a testing/synctest bubble (quiescence after every operation), replayed in the extracted model; compared: for every ReceiveFrom the operation after which it returned and its result (payload per sender as hex | error class | blamed id | still parked). Systematic: all arrival orders x receive placement x cancellation placement for k<=3 senders with identical/conflicting retransmission, other-id, other-namespace, non-member extras; held-receiver windows; random long schedules; buffer bound. Echo: echo.ExchangeEchoBroadcast over real routers with a two-faced broadcaster, delivery order and duplication drawn from the seed, compared with coq/model/Echo.v and with the real echo.Participant rounds driven directly (runner vs round by round). Non-trivial = some receive returned payloads or a blamed conflict."
+	res.Rule = "router: operation lists (launch ReceiveFrom / hand one message to the reader / cancel / release a held receiver / Close / delivery failure / garbage) run against pkg/network.Router over a checker-controlled Delivery inside a testing/synctest bubble (quiescence after every operation), replayed in the extracted model; compared: for every ReceiveFrom the operation after which it returned and its result (payload per sender as hex | error class | blamed id | still parked). Systematic: all arrival orders x receive placement x cancellation placement for k<=3 senders with identical/conflicting retransmission, other-id, other-namespace, non-member extras; held-receiver windows; random long schedules; buffer bound. Echo: echo.ExchangeEchoBroadcast over real routers with a two-faced broadcaster, delivery order and duplication drawn from the seed, compared with coq/model/Echo.v and with the real echo.Participant rounds driven directly (runner vs round by round). Runner family: session setup, Gennaro DKG, Lindell22 (BIP-340) and DKLs23/bbot signing run by their real runners (exchange + echo broadcast) over real routers on the checker-controlled Delivery, 3 parties, under in-order / random / duplicating / link-starving delivery and two concurrent instances in different namespaces, each party's output compared with the round-by-round drive (harness/internal/drive) of the same protocol on the same tapes; with a conflicting retransmission or an equivocated echo round-1 payload from one party the honest parties must abort (blaming nobody else) or agree. Non-trivial = some receive returned payloads or a blamed conflict."
 	defer func() {
 		res.Write(a.Out)
 	}()
@@ -1765,6 +1765,10 @@ func body(t *testing.T, a vh.Args) {
 
 	if a.Replay != "" {
 		replay(t, a, res)
+		return
+	}
+	if a.Tier == "runners" { // development aid: only the runner-refinement family
+		evalRunners(t, a, res)
 		return
 	}
 	if a.Tier == "racechild" {
@@ -1804,6 +1808,7 @@ func body(t *testing.T, a vh.Args) {
 	}
 	evalSerial(t, a, res, cases)
 	evalEcho(t, a, res, genEcho(a.Seed, nEcho))
+	evalRunners(t, a, res)
 
 	// real concurrency: a short sample in the quick tier, the full one (and -race) in the thorough tier
 	if !a.Search {
@@ -1840,6 +1845,8 @@ func replay(t *testing.T, a vh.Args, res *vh.Result) {
 			for _, e := range genEcho(seed, idx+1)[idx:] {
 				evalEcho(t, a, res, []echoCase{e})
 			}
+		case strings.HasPrefix(c, "P "):
+			evalRunners(t, a, res) // the runner family is small: re-run it as a whole
 		default:
 			res.Note("replay of this case kind re-runs the whole tier")
 		}
